@@ -21,31 +21,75 @@ TRUSTED = ["glob::Pattern matching semantics", "BTreeSet set operations"]
 ASSUMPTIONS = []
 FLOORS = {"C03/D1": 2, "C03/D2": 1, "C03/D3": 3, "C03/D4": 11, "C03/D5": 1}
 
-ANCHOR = "rulelib::apply_rules_on_link"
-MATCHERS = {"models::helpers::VirtualTargetPath::matches", "glob::Pattern::matches", "glob::Pattern::matches_path", "glob::Pattern::matches_with"}
+PUBLIC_ENTRY = "verifylib::in_toto_verify"
+GLOB_MATCHERS = {"glob::Pattern::matches", "glob::Pattern::matches_path", "glob::Pattern::matches_with"}
+MATCHERS = set(GLOB_MATCHERS)      # + local wrappers found by role (find_matchers)
+RULE_KINDS = {"Create", "Delete", "Modify", "Allow", "Require", "Disallow", "Match"}
+
+
+def find_engine(ctx):
+    """The rule engine, by role: the hand-written function reachable from in_toto_verify that dispatches on the most kinds of
+    ArtifactRule (it is crate-private: its name is nobody's API)."""
+    fx, cg = ctx.fx, ctx.cg
+    ent = fx.fn_opt(PUBLIC_ENTRY)
+    if ent is None:
+        return None
+    best = None
+    for k in cg.reachable([ent["key"]]):
+        f = fx.fns[k]
+        if f.get("exp") or f.get("impl_trait") or f["kind"] not in ("Fn", "AssocFn"):
+            continue
+        kinds = set()
+        for blk in f["blocks"]:
+            for st in blk["stmts"]:
+                if st["k"] == "assign" and st["rv"]["k"] == "discr" and (st["rv"].get("adt") or "").endswith("rule::ArtifactRule"):
+                    t = blk["term"]
+                    if t and t["k"] == "switch":
+                        names = dict((v, n) for v, n in st["rv"].get("variants", []))
+                        kinds |= {names.get(v) for v, _ in t["arms"]}
+        kinds &= RULE_KINDS
+        if len(kinds) >= 4 and (best is None or len(kinds) > best[0]):
+            best = (len(kinds), f)
+    return best[1] if best else None
+
+
+def find_matchers(fx):
+    """Local wrappers of the glob matcher, by role: local functions returning Result<bool, _> / bool whose body compiles a
+    glob pattern from one argument and applies it to another."""
+    out = set()
+    for f in fx.doc["fns"]:
+        if f.get("exp") or f["kind"] not in ("Fn", "AssocFn"):
+            continue
+        names = {callee_name(b["term"]) for b in f["blocks"] if b["term"] and b["term"]["k"] == "call" and not b["cleanup"]}
+        if "glob::Pattern::new" in names and names & GLOB_MATCHERS and "bool" in f["locals"][0]["ty"]:
+            out.add(f["path"])
+    return out
 DEFAULTING = {"std::result::Result::unwrap_or", "std::result::Result::unwrap_or_default", "std::result::Result::unwrap_or_else",
               "std::result::Result::ok", "std::result::Result::is_ok", "std::result::Result::is_err", "std::result::Result::unwrap", "std::result::Result::expect"}
 
 
 def run(ctx):
     fx = ctx.fx
-    f = fx.fn_opt(ANCHOR)
+    f = find_engine(ctx)
     if f is None:
-        ctx.bad("C03/D1", "anchor", "rulelib::apply_rules_on_link not found (failing closed)")
+        ctx.bad("C03/D1", "anchor", "no function reachable from in_toto_verify dispatches on the kinds of ArtifactRule: the rule engine was not found (failing closed)")
         return
-    b = ctx.region(ANCHOR)
-    if not b.ps:
-        b.enable_path_sensitivity()
-    # every function / closure of the rule engine (for defaulting scans)
-    eng = [g for g in fx.doc["fns"] if g["path"].startswith("rulelib::")]
+    ctx.note("rule engine located by role: %s" % f["path"])
+    wrappers = find_matchers(fx)
+    MATCHERS.clear()
+    MATCHERS.update(GLOB_MATCHERS | wrappers)
+    b = ctx.region(None, key=f["key"], ps=True)
+    # every function / closure of the rule engine's module (for defaulting scans)
+    mod = f["path"].rsplit("::", 1)[0] + "::"
+    eng = [g for g in fx.doc["fns"] if g["path"].startswith(mod)]
     # ---- D1a no defaulted matcher result anywhere in the rule engine
     n_m = 0
-    for g in eng + [fx.fn_opt("models::helpers::VirtualTargetPath::matches")]:
+    for g in eng + [fx.fn_opt(w) for w in sorted(wrappers)]:
         if g is None:
             continue
         gb = body_of(fx, g["key"])
         for i, t in gb.calls():
-            if callee_name(t) != "models::helpers::VirtualTargetPath::matches":
+            if callee_name(t) not in wrappers:
                 continue
             n_m += 1
             # consumers of the Result
@@ -56,10 +100,10 @@ def run(ctx):
                     if dc and dc[0] == i:
                         bad.append(callee_name(t2).split("::")[-1])
             ctx.inst("C03/D1", "matcher result in %s is matched, not defaulted" % g["path"], not bad,
-                     "Result<bool> of VirtualTargetPath::matches is consumed by %s" % (bad or "a match"), t["at"])
+                     "Result<bool> of the matcher wrapper %s is consumed by %s" % (callee_name(t), bad or "a match"), t["at"])
     # ---- the MATCH helper's consumed insert
     ins = [(i, t) for (i, t) in b.calls_named("std::collections::BTreeSet::insert")
-           if "verify_match_rule" in b.blocks[i].get("inst", "") or True]
+           ]
     ins = [(i, t) for (i, t) in ins if any((fa[0] == "variant" and fa[2] == "Match" and (fa[3] or "").endswith("ArtifactRule")) for (e, fa) in b.facts_dominating(i))]
     if len(ins) != 1:
         ctx.bad("C03/D1", "MATCH consumption", "expected exactly one insertion into the consumed set on the MATCH arm, found %d" % len(ins))
@@ -109,7 +153,7 @@ def run(ctx):
                 detail = "insertion dominated by edge %s: matcher(artifact, rule pattern) == Ok(true)" % (e,)
         ctx.inst("C03/D1", "MATCH consumes an artifact only after a positive pattern match", okm, detail, it["at"])
         # ---- D2
-        sp = [(i, t) for (i, t) in b.calls_named("core::str::strip_prefix") if "verify_match_rule" in b.blocks[i].get("inst", "") or True]
+        sp = list(b.calls_named("core::str::strip_prefix"))
         sp = [(i, t) for (i, t) in sp if any(fa[0] == "variant" and fa[2] == "Match" for (e, fa) in b.facts_dominating(i))]
         if len(sp) != 1:
             ctx.bad("C03/D2", "source prefix", "expected one strip_prefix call on the MATCH arm, found %d" % len(sp))
@@ -212,23 +256,6 @@ def run(ctx):
         ctx.inst("C03/D3", "every pattern-interpreting rule kind passes the compile", bool(hdr) and bool(ok_e) and not bypass and n_arms == 6,
                  "rule kinds whose dispatch arm is reachable without the compile's Ok outcome: %s (REQUIRE takes its argument literally)" % bypass, ct["at"])
     # ---- D4 table
-    def set_op(op):
-        """Describe a BTreeSet-valued operand: ('intersection'|'difference', A, B) / ('new',) / ('local', root) ..."""
-        lv = b.trace(op, (), lambda t: callee_name(t) in ("std::collections::BTreeSet::intersection", "std::collections::BTreeSet::difference",
-                                                           "std::collections::BTreeSet::new", "rulelib::verify_match_rule"))
-        out = []
-        for l in lv:
-            if l.kind == "call":
-                n = callee_name(l.data[1])
-                if n.endswith("intersection") or n.endswith("difference"):
-                    out.append((n.split("::")[-1], root_ids(b, l.data[1]["args"][0]), root_ids(b, l.data[1]["args"][1]), l.data[0]))
-                elif n.endswith("BTreeSet::new"):
-                    out.append(("empty",))
-                else:
-                    out.append(("call", n, l.data[0]))
-            else:
-                out.append((l.kind, leaf_s(b, l)))
-        return out
     # locate material_paths / product_paths: collect(filter_map(iter(link.materials|products)))
     def coll_src(root):
         """for a set root (call collect..): which link field it was built from"""
@@ -244,7 +271,7 @@ def run(ctx):
                 elif l.path:
                     res.add(str(l.path[-1]))
         return res
-    diffs = [(i, t) for (i, t) in b.calls_named("std::collections::BTreeSet::difference") if not b.blocks[i].get("inst")]
+    diffs = [(i, t) for (i, t) in b.calls_named("std::collections::BTreeSet::difference") if not on_match_arm(i)]
     named = {}
     queue_update = None
     for (i, t) in diffs:
@@ -258,22 +285,41 @@ def run(ctx):
             queue_update = (i, t, a, c)
     ctx.inst("C03/D4", "created = products \\\\ materials", "created" in named, "difference(product paths, material paths) found: %s" % ("created" in named))
     ctx.inst("C03/D4", "deleted = materials \\\\ products", "deleted" in named, "difference(material paths, product paths) found: %s" % ("deleted" in named))
-    inter0 = [(i, t) for (i, t) in b.calls_named("std::collections::BTreeSet::intersection") if not b.blocks[i].get("inst")
+    inter0 = [(i, t) for (i, t) in b.calls_named("std::collections::BTreeSet::intersection") if not on_match_arm(i)
               and not any(fa[0] == "variant" and (fa[3] or "").endswith("ArtifactRule") for (e, fa) in b.facts_dominating(i))]
+    # modified: a set whose elements are elements of (material paths n product paths), inserted only on an edge where the two
+    # digests recorded for that path differ
     mod_ok = False
+    mod_sets = set()
+    inter_mp = set()
     for (i, t) in inter0:
         a, c = coll_src(root_ids(b, t["args"][0])), coll_src(root_ids(b, t["args"][1]))
         if sorted([sorted(a), sorted(c)]) == [["materials"], ["products"]]:
-            # filtered by a closure comparing the two digests with `!=`
-            for ck in fx.closures_of.get(f["key"], []):
-                cb = body_of(fx, ck)
-                if any(callee_name(tt) in ("std::cmp::PartialEq::ne",) for (j, tt) in cb.calls()):
-                    mod_ok = True
-    ctx.inst("C03/D4", "modified = (materials n products) with differing digests", mod_ok, "intersection(material paths, product paths) filtered by a `!=` on the two digests: %s" % mod_ok)
+            inter_mp.add(i)
+    for (i, t) in b.calls_named("std::collections::BTreeSet::insert"):
+        if on_match_arm(i):
+            continue
+        el = b.trace(t["args"][1], (), lambda x: callee_name(x) == "std::collections::BTreeSet::intersection")
+        if not (el and all(l.kind == "call" and l.data[0] in inter_mp and l.path == (ELEM,) for l in el)):
+            continue
+        differs = False
+        for (e, fa) in b.facts_dominating(i):
+            cm = as_cmp(fa)
+            if cm and cm[0] == "Ne":
+                gets = [def_call(b, o) for o in (cm[1], cm[2])]
+                if all(g and callee_name(g[1]) == "std::collections::BTreeMap::get" for g in gets) and \
+                        root_ids(b, gets[0][1]["args"][0]) != root_ids(b, gets[1][1]["args"][0]) and \
+                        all(root_ids(b, g[1]["args"][1]) == root_ids(b, t["args"][1]) for g in gets):
+                    differs = True
+        if differs:
+            mod_ok = True
+            mod_sets |= {(k, i_) for (k, i_, p) in root_ids(b, t["args"][0])}
+    ctx.inst("C03/D4", "modified = (materials n products) with differing digests", mod_ok,
+             "a set filled from intersection(material paths, product paths), each insertion dominated by `materials.get(path) != products.get(path)`: %s" % mod_ok)
     # per-arm consumed sets: the intersections on the arms
     arms = {}
     for (i, t) in b.calls_named("std::collections::BTreeSet::intersection"):
-        if b.blocks[i].get("inst"):
+        if on_match_arm(i):
             continue
         arm = None
         for (e, fa) in b.facts_dominating(i):
@@ -289,7 +335,7 @@ def run(ctx):
                     which = "created"
                 elif i_ == named.get("deleted"):
                     which = "deleted"
-                elif mod_ok and i_ in {x for (x, _t) in inter0}:
+                elif mod_ok and (k, i_) in mod_sets:
                     which = "modified"
                 else:
                     tt = b.blocks[i_]["term"]
@@ -304,7 +350,7 @@ def run(ctx):
     req = dis = False
     for (e, tb, fa) in b.all_edge_facts():
         p = as_pred(fa)
-        if not p or b.blocks[e[0]].get("inst"):
+        if not p or on_match_arm(e[0]):
             continue
         arm = None
         for (e2, fa2) in b.facts_dominating(e[0]):
@@ -328,7 +374,7 @@ def run(ctx):
         qok = bool(loops)
     ctx.inst("C03/D4", "queue <- queue \\\\ consumed after every rule", qok, "difference(queue, consumed) inside the per-rule loop: %s" % qok)
     # no early exit from the rule loops (root-level loops containing the dispatch)
-    disp_blocks = [e[0] for (e, tb, fa) in b.all_edge_facts() if fa[0] == "variant" and (fa[3] or "").endswith("ArtifactRule") and not b.blocks[e[0]].get("inst")]
+    disp_blocks = [disp_sw] if disp_sw is not None else []
     rl = [l for l in b.loops().values() if any(x in l for x in disp_blocks)]
     exits = []
     for l in rl:
@@ -338,14 +384,14 @@ def run(ctx):
     # MATCH arm uses the helper's result
     m_ok = False
     for (e, tb, fa) in b.all_edge_facts():
-        if fa[0] == "variant" and fa[2] == "Match" and (fa[3] or "").endswith("ArtifactRule") and not b.blocks[e[0]].get("inst"):
-            inl = [x for x in b.fn["inlined"] if x["callee"] == "rulelib::verify_match_rule"]
-            m_ok = bool(inl) and any(x["at_block"] in b.edge_dominated(e) for x in inl)
-    ctx.inst("C03/D4", "MATCH consumes the result of the MATCH helper", m_ok, "the helper is invoked on the Match arm: %s" % m_ok)
+        if fa[0] == "variant" and fa[2] == "Match" and (fa[3] or "").endswith("ArtifactRule") and e[0] == disp_sw:
+            # the insertion examined by D1/D2/D5 lies on the Match arm of the dispatch
+            m_ok = len(ins) == 1 and ins[0][0] in b.edge_dominated(e)
+    ctx.inst("C03/D4", "MATCH consumes what the checked MATCH insertion builds", m_ok, "the insertion examined by D1, D2 and D5 is on the Match arm of the dispatch: %s" % m_ok)
     allow_ok = False
     # ALLOW: consumed = filtered itself: on the Allow arm no set operation
     for (e, tb, fa) in b.all_edge_facts():
-        if fa[0] == "variant" and fa[2] == "Allow" and (fa[3] or "").endswith("ArtifactRule") and not b.blocks[e[0]].get("inst"):
+        if fa[0] == "variant" and fa[2] == "Allow" and (fa[3] or "").endswith("ArtifactRule") and e[0] == disp_sw:
             dom = b.edge_dominated(e)
             ops = [callee_name(b.blocks[x]["term"]) for x in dom if b.blocks[x]["term"] and b.blocks[x]["term"]["k"] == "call"
                    and (callee_name(b.blocks[x]["term"]) or "").startswith("std::collections::BTreeSet::") ]
